@@ -1,4 +1,5 @@
 """Shared driver for C01 / C02: Scheduler.tla model checking + trace validation of real Controller runs."""
+import atexit
 import itertools
 import json
 import os
@@ -10,13 +11,17 @@ from . import tlc
 from . import sched_shapes as SS
 
 GEN = os.path.join(SPEC, "gen")
+_RUNDIRS = set()
 
 
 def rundir(tag, shape_names):
     """A directory with its own copy of the modules and the generated data module."""
-    d = os.path.join(GEN, "sched_" + tag)
+    d = os.path.join(GEN, "sched_%s_%d" % (tag, os.getpid()))      # per process: checks may run concurrently
     shutil.rmtree(d, ignore_errors=True)
     os.makedirs(d)
+    if d not in _RUNDIRS:
+        _RUNDIRS.add(d)
+        atexit.register(shutil.rmtree, d, True)
     for f in ("Scheduler.tla", "SchedulerTrace.tla"):
         shutil.copy(os.path.join(SPEC, f), os.path.join(d, f))
     with open(os.path.join(d, "SchedData.tla"), "w") as f:
@@ -36,12 +41,12 @@ def _b(x):
     return "TRUE" if x else "FALSE"
 
 
-def consts(emit=False, fixobs=False, kill=False, starts=(0,), max_sleeps=0, memo=False, all_orders=True):
+def consts(emit=False, fixobs=False, kill=False, starts=(0,), max_sleeps=0, memo=False, all_orders=True, fix_restart_race=True):
     """The CONSTANTS section of a cfg for Scheduler.tla.  kill / starts / max_sleeps / memo switch on the environment
     actions of the growth item G02 (external kill, restart from a later stage, sleep / wake-up, memoization answers);
     with the defaults the model is the one of a fresh launch without any of them."""
-    return ("CONSTANTS\n  Emit = %s\n  FixObs = %s\n  Kill = %s\n  Starts = {%s}\n  MaxSleeps = %d\n  Memo = %s\n  AllOrders = %s\n" % (
-        _b(emit), _b(fixobs), _b(kill), ", ".join(str(int(x)) for x in starts), max_sleeps, _b(memo), _b(all_orders)))
+    return ("CONSTANTS\n  Emit = %s\n  FixObs = %s\n  Kill = %s\n  Starts = {%s}\n  MaxSleeps = %d\n  Memo = %s\n  AllOrders = %s\n  FixRestartRace = %s\n" % (
+        _b(emit), _b(fixobs), _b(kill), ", ".join(str(int(x)) for x in starts), max_sleeps, _b(memo), _b(all_orders), _b(fix_restart_race)))
 
 
 def model_check(tag, shape_names, props, invariants, fixobs=False, coverage=True, timeout=1700, workers=16, liveness=False,
@@ -127,7 +132,7 @@ TRACE_INVS = ("TypeOK", "DoneImpliesFinal", "RunOnlyStaged", "RestartBound", "Ki
 
 
 def validate_traces(tag, shape_names, runs, props=("TLaunchSafeModuloKnown",) + TRACE_PROPS,
-                    invariants=TRACE_INVS, fixobs=False, batch=400, timeout=1700):
+                    invariants=TRACE_INVS, fixobs=False, batch=400, timeout=1700, fix_restart_race=True):
     """Validates the recorded runs against SchedulerTrace.tla.  Returns (results, tlc results) where results[i] is
     None (accepted) or dict(step=..., kind=...)."""
     from . import ctl
@@ -139,7 +144,7 @@ def validate_traces(tag, shape_names, runs, props=("TLaunchSafeModuloKnown",) + 
         with open(os.path.join(d, "SchedTraceData.tla"), "w") as f:
             f.write("---- MODULE SchedTraceData ----\nTraces == <<\n  %s\n>>\n====\n" % ",\n  ".join(ctl.trace_to_tla(h, h.sid) for h in chunk))
         # the environment actions are all allowed when matching a recorded run (what happened is in the record)
-        body = consts(False, fixobs, kill=True, starts=(0,), max_sleeps=99, memo=True) + "SPECIFICATION TraceSpec\nCONSTRAINT Record\nPOSTCONDITION AllAccepted\n"
+        body = consts(False, fixobs, kill=True, starts=(0,), max_sleeps=99, memo=True, fix_restart_race=fix_restart_race) + "SPECIFICATION TraceSpec\nCONSTRAINT Record\nPOSTCONDITION AllAccepted\n"
         body += "".join("INVARIANT %s\n" % i for i in invariants) + "".join("PROPERTY %s\n" % p for p in props) + "CHECK_DEADLOCK FALSE\n"
         c = cfg(os.path.join(d, "trace.cfg"), body)
         r = tlc.run_tlc("SchedulerTrace", c, specdir=d, workers=1, timeout=timeout, expect_violation=True)
@@ -155,7 +160,8 @@ def validate_traces(tag, shape_names, runs, props=("TLaunchSafeModuloKnown",) + 
             # the remaining runs of this chunk were not fully examined: validate them individually
             rest = [h for i, h in enumerate(chunk) if i != t]
             if rest:
-                sub, subt = validate_traces(tag + "r%d" % b0, shape_names, rest, props, invariants, fixobs, batch=max(1, len(rest) // 2), timeout=timeout)
+                sub, subt = validate_traces(tag + "r%d" % b0, shape_names, rest, props, invariants, fixobs, batch=max(1, len(rest) // 2), timeout=timeout,
+                                            fix_restart_race=fix_restart_race)
                 j = 0
                 for i in range(len(chunk)):
                     if i != t:
